@@ -207,6 +207,26 @@ def run_geom_case(ctx, case):
             okv = True
         ctx.check("invalid.neighbours", okv, "neighbours|invalid-cell-mapped", case,
                   lambda: {"cell": bad_c, "got": v3})
+    # ---- invalid cell numbers mixed with valid ones in one call: each answer must
+    # depend on its own cell number only
+    mix = np.array([0, -1, n - 1, n, int(cells[len(cells) // 2]), 2 ** 62, 0, -5, n + 7,
+                    n - 1], dtype=np.int64)
+    valid = (mix >= 0) & (mix < n)
+    ctx.tag("invalid-cell")
+    try:
+        cm = gr.cell2coord(mix)
+        rm = gr.cell2rowcol(mix)
+        okm = bool(np.all(np.isnan(cm[~valid]))) and bool(np.all(rm[~valid] == -1))
+        solo = gr.cell2coord(mix[valid])
+        okm = okm and bool(np.array_equal(cm[valid], solo)) and \
+            bool(np.array_equal(rm[valid], gr.cell2rowcol(mix[valid])))
+    except Exception:
+        okm = True          # rejecting the whole call is accepted
+        cm = rm = None
+    ctx.check("invalid.mixed-call", okm, "cell2coord-cell2rowcol|invalid-cell-in-mixed-call",
+              case, lambda: {"cells": mix.tolist(),
+                             "coords": None if cm is None else cm.tolist(),
+                             "rowcol": None if rm is None else rm.tolist()})
     # ---- xvalues / yvalues
     ctx.tag("xyvalues")
     ctx.api("xvalues/yvalues")
